@@ -323,7 +323,7 @@ def main():
     lines, impl = [], []
 
     async def go():
-        for k in range(500 if not chk.thorough else 10000):
+        for k in range(500 if not chk.thorough else 60000):
             await run_case(chk, rng, lines, impl)
         await truncations(chk, rng, quick=not chk.thorough)
         await bad_sequence(chk, rng)
